@@ -30,10 +30,12 @@ def fold_obligations(ctx, rep, prog, g):
     rule = "T-FOLD"
     rep.rule(rule, 100, "the comparators of one alternative are folded to their intersection; when it is empty the "
                         "alternative holds nothing (never both operands)")
-    clo = _closure_of(g, "range::range")
-    if clo is None:
-        rep.inconc("range::range has no folding closure")
+    FN = "range::range"
+    if FN not in g:
+        rep.inconc("range::range not found in the extracted grammar")
         return
+    clo = _closure_of(g, FN)
+    site = clo.key if clo is not None else FN      # violation keys name the closure when there is one (as before)
     maxn = 4 if ctx.thorough else 3
     total = 0
     for n in range(0, maxn + 1):
@@ -57,12 +59,12 @@ def fold_obligations(ctx, rep, prog, g):
                 exp = allden & inh if k else 0
                 cls = "comparators=%s world=%s" % ("".join("c" if p else "-" for p in present) or "none", bin(inh))
                 try:
-                    r = it.call_closure(clo, [ListV(items)])
+                    r, it = gram.run_with_leaf(prog, FN, ListV(items), ctx=cx, overrides=setalg.overrides(world, cx))
                 except Inconclusive as e:
                     rep.inconc("%s: %s" % (rule, e.reason), e.where)
                     continue
                 except Panic as p:
-                    rep.fail(rule, "%s|%s|panic %s" % (clo.key, rule, cls), "panics: %s" % p)
+                    rep.fail(rule, "%s|%s|panic %s" % (site, rule, cls), "panics: %s" % p)
                     continue
                 rep.path((rule, path_sig(it)))
                 lst = it.strip(r)
@@ -73,7 +75,7 @@ def fold_obligations(ctx, rep, prog, g):
                 for x in lst.items:
                     den |= it.strip(x).val
                 den &= inh
-                sp = it.ret_span.get(clo.key)
+                sp = it.ret_span.get(site)
                 where = prog.span_str(sp) if sp else None
                 kind = None
                 if den != exp:
@@ -85,21 +87,23 @@ def fold_obligations(ctx, rep, prog, g):
                 if kind is None:
                     rep.ok(rule)
                 else:
-                    rep.fail(rule, "%s|%s|n=%d %s" % (clo.key, rule, k, kind), what + " (%s)" % cls, where=where,
+                    rep.fail(rule, "%s|%s|n=%d %s" % (site, rule, k, kind), what + " (%s)" % cls, where=where,
                              expected=bin(exp), actual=bin(den),
                              example=">=1.2.3 <1.0.0 parses to a union" if kind == "widens" else None)
                 if total % 37 == 1:
                     rep.sample({"rule": rule, "class": cls, "extracted": bin(den), "reference": bin(exp)})
-    rep.analysed_item("%s interpreted on %d (comparator list, world) cases" % (clo.key, total))
+    rep.analysed_item("%s interpreted on %d (comparator list, world) cases" % (site, total))
 
 
 def or_obligations(ctx, rep, prog, g):
     rule = "T-OR"
     rep.rule(rule, 30, "`||`: the alternatives collected by bound_sets admit exactly what the listed alternatives admit "
                        "(bounds and prerelease gate of every alternative); Range::satisfies is the OR of the alternatives")
-    clo = _closure_of(g, "range::bound_sets")
-    if clo is None:
-        rep.inconc("range::bound_sets has no collecting closure")
+    FN = "range::bound_sets"
+    clo = _closure_of(g, FN) if FN in g else None
+    site = clo.key if clo is not None else FN
+    if FN not in g:
+        rep.inconc("range::bound_sets not found in the extracted grammar")
     else:
         gate_sets = [frozenset(), frozenset([0]), frozenset([1])]
         shapes = [()] + [l for n in (1, 2, 3) for l in itertools.product(range(0, 3), repeat=n) if sum(l) <= 3]
@@ -129,12 +133,12 @@ def or_obligations(ctx, rep, prog, g):
                             lists.append(ListV(one))
                         ncase += 1
                         try:
-                            r = it.call_closure(clo, [ListV(lists)])
+                            r, it = gram.run_with_leaf(prog, FN, ListV(lists), ctx=cx, overrides=setalg.overrides(world, cx))
                         except Inconclusive as e:
                             rep.inconc("%s: %s" % (rule, e.reason), e.where)
                             break
                         except Panic as p:
-                            rep.fail(rule, "%s|%s|panic" % (clo.key, rule), "panics: %s" % p)
+                            rep.fail(rule, "%s|%s|panic" % (site, rule), "panics: %s" % p)
                             break
                         rep.path((rule, path_sig(it)))
                         out = [it.strip(x) for x in it.strip(r).items]
@@ -160,14 +164,14 @@ def or_obligations(ctx, rep, prog, g):
                         if problem is None:
                             rep.ok(rule)
                         else:
-                            sp = it.ret_span.get(clo.key)
-                            rep.fail(rule, "%s|%s|alternatives=%s" % (clo.key, rule, "+".join(map(str, lens))), problem,
+                            sp = it.ret_span.get(site)
+                            rep.fail(rule, "%s|%s|alternatives=%s" % (site, rule, "+".join(map(str, lens))), problem,
                                      where=prog.span_str(sp) if sp else None,
                                      example="1.x || 1.5.0-beta loses the prerelease alternative" if "prerelease" in problem else None)
                         for i in range(len(cx.decisions) - 1, len(prefix) - 1, -1):
                             for alt in range(cx.arity[i] - 1, 0, -1):
                                 stack.append(cx.decisions[:i] + [alt])
-        rep.analysed_item("%s interpreted on %d (alternative lists, world, gate tags) cases" % (clo.key, ncase))
+        rep.analysed_item("%s interpreted on %d (alternative lists, world, gate tags) cases" % (site, ncase))
     n = 3 if not ctx.thorough else 4
     cnt = 0
     for k in range(1, n + 1):
